@@ -5,6 +5,7 @@ import (
 	"go/constant"
 	"go/token"
 	"go/types"
+	"strings"
 	"math"
 
 	"golang.org/x/tools/go/ssa"
@@ -883,4 +884,238 @@ func lenBound(base ssa.Value, b *ssa.BasicBlock, d int) (int64, bool) {
 		}
 	})
 	return best, found
+}
+
+// ---- R107: constant-index accesses are covered by a dominating length fact ----
+
+func init() {
+	register(&Rule{ID: "R107", Name: "CONST-INDEX", Floor: 15,
+		Text: "every element access x[k] with a constant index k on a slice or string (arrays excluded) in the packages the properties anchor is justified: the dominating guards on len(x) (same access path) imply len(x) > k - `len(x) == n` with n > k, `len(x) > m`/`>= m` with enough room, or for k = 0 the exclusion of the empty case (`len(x) == 0` left on the other edge, `len(x) != 0`) - or x is allocated in the function with a constant length > k. An emptiness test that compares with 1 instead of 0, or an access moved from [0] to [1], turns the first/only row, record or column into an index-out-of-range panic or silently reads the wrong element",
+		Run:  runR107})
+}
+
+func runR107(c *Ctx) {
+	p := c.P
+	skip := map[string]bool{rel("internal/ryu"): true, rel("internal/hash"): true}
+	for _, fn := range p.Funcs {
+		if fn.Pkg == nil || skip[fn.Pkg.Pkg.Path()] {
+			continue
+		}
+		fnm := fname(fn)
+		eachInstr(fn, func(in ssa.Instruction) {
+			var x, idx ssa.Value
+			switch t := in.(type) {
+			case *ssa.IndexAddr:
+				x, idx = t.X, t.Index
+			case *ssa.Index:
+				x, idx = t.X, t.Index
+			default:
+				return
+			}
+			k, isK := constInt(idx)
+			if !isK {
+				return
+			}
+			switch x.Type().Underlying().(type) {
+			case *types.Slice:
+			case *types.Basic: // string
+			default:
+				return // arrays and pointers to arrays: statically sized
+			}
+			if _, isConstStr := x.(*ssa.Const); isConstStr {
+				return
+			}
+			key := fmt.Sprintf("%s|%s[%d]", fnm, accessPath(x), k)
+			pos := p.instrPos(in)
+			// allocated here with a constant length
+			if n, ok := lenBoundLower(x); ok && n > k {
+				c.okTrivial(key, pos, fmt.Sprintf("allocated with length %d", n))
+				return
+			}
+			want := accessPath(x)
+			if why := r107ExemptReason(fn, x); why != "" {
+				c.okTrivial(key, pos, "frozen exception: "+why)
+				return
+			}
+			best := lenLowerBound(fn, x, in.Block(), 0)
+			switch {
+			case best > k:
+				c.ok(key, pos, fmt.Sprintf("dominating guards imply len >= %d", best))
+			case rangeKeyOfAny(fn, in):
+				c.okTrivial(key, pos, "inside a loop over the same slice")
+			default:
+				c.bad(key, pos, fmt.Sprintf("element %d of %s is accessed although no dominating guard establishes len(%s) > %d: an input with fewer elements panics here (or the wrong element is read)", k, want, want, k))
+			}
+		})
+	}
+}
+
+// lenBoundLower: x is allocated in this function with a known constant length.
+func lenBoundLower(x ssa.Value) (int64, bool) {
+	switch t := x.(type) {
+	case *ssa.MakeSlice:
+		return constInt(t.Len)
+	case *ssa.Slice:
+		if arr, ok := deref(t.X.Type()).Underlying().(*types.Array); ok && t.Low == nil {
+			if t.High != nil {
+				return constInt(t.High)
+			}
+			return arr.Len(), true
+		}
+	}
+	return 0, false
+}
+
+// rangeKeyOfAny: the access happens inside a range loop over the accessed value itself (non-empty there).
+func rangeKeyOfAny(fn *ssa.Function, in ssa.Instruction) bool {
+	var x ssa.Value
+	switch t := in.(type) {
+	case *ssa.IndexAddr:
+		x = t.X
+	case *ssa.Index:
+		x = t.X
+	}
+	for _, li := range loopsOf(fn) {
+		if li.base != nil && accessPath(li.base) == accessPath(x) && inLoop(li, in.Block()) && in.Block() != li.header {
+			return true
+		}
+	}
+	return false
+}
+
+// r107ExemptReason: element 0 of a group is its first row - groups are never empty by construction (an entry of
+// the grouping table is created for a row and holds it).
+func r107ExemptReason(fn *ssa.Function, x ssa.Value) string {
+	why := "a group holds at least the row that created its table entry (R11, R8): the cells / positions of a group are never empty"
+	if fname(fn) == "(qframe.QFrame).Append" {
+		return "work-in-progress API outside every property"
+	}
+	if pr, ok := x.(*ssa.Parameter); ok && (fn.Name() == "min" || fn.Name() == "max") && strings.HasSuffix(fn.Pkg.Pkg.Path(), "column") && pr == fn.Params[0] {
+		return why
+	}
+	if isIntIndexType(x.Type()) {
+		// an element of a []index.Int (one group's positions)
+		if ld, ok := x.(*ssa.UnOp); ok {
+			if ia, ok := ld.X.(*ssa.IndexAddr); ok {
+				if sl, ok := ia.X.Type().Underlying().(*types.Slice); ok && isIntIndexType(sl.Elem()) {
+					return why
+				}
+			}
+		}
+	}
+	return ""
+}
+
+// lenLowerBound: the least length of x at block b implied by the guards on len(x) (same access path): equalities,
+// disjunctions of equalities at merge points, excluded constants (len != 0, != 1, ... => mex), lower bounds, and a
+// make whose length is len(y) - c.
+func lenLowerBound(fn *ssa.Function, x ssa.Value, b *ssa.BasicBlock, d int) int64 {
+	if d > 3 {
+		return 0
+	}
+	if mk, ok := x.(*ssa.MakeSlice); ok {
+		if k, isK := constInt(mk.Len); isK {
+			return k
+		}
+		if sub, ok := mk.Len.(*ssa.BinOp); ok && sub.Op == token.SUB {
+			if call, ok := sub.X.(*ssa.Call); ok && builtinName(call) == "len" {
+				if cst, isK := constInt(sub.Y); isK {
+					return lenLowerBound(fn, call.Call.Args[0], mk.Block(), d+1) - cst
+				}
+			}
+		}
+		if call, ok := mk.Len.(*ssa.Call); ok && builtinName(call) == "len" {
+			return lenLowerBound(fn, call.Call.Args[0], mk.Block(), d+1)
+		}
+		return 0
+	}
+	want := accessPath(x)
+	isLenOfX := func(v ssa.Value) bool {
+		call, ok := v.(*ssa.Call)
+		return ok && builtinName(call) == "len" && accessPath(call.Call.Args[0]) == want
+	}
+	lo := int64(0)
+	excluded := map[int64]bool{}
+	var allowed map[int64]bool
+	for _, g := range dominatingGuards(b) {
+		cmp, ok := g.Cond.(*ssa.BinOp)
+		if !ok || !isLenOfX(cmp.X) {
+			continue
+		}
+		k, isK := constInt(cmp.Y)
+		if !isK {
+			continue
+		}
+		op := cmp.Op
+		if !g.Val {
+			op = map[token.Token]token.Token{token.LSS: token.GEQ, token.LEQ: token.GTR, token.GTR: token.LEQ, token.GEQ: token.LSS, token.EQL: token.NEQ, token.NEQ: token.EQL}[op]
+		}
+		switch op {
+		case token.EQL:
+			allowed = map[int64]bool{k: true}
+		case token.NEQ:
+			excluded[k] = true
+		case token.GTR:
+			if k+1 > lo {
+				lo = k + 1
+			}
+		case token.GEQ:
+			if k > lo {
+				lo = k
+			}
+		}
+	}
+	// disjunction of equalities at a merge point on the dominator path
+	if allowed == nil {
+		for blk := b; blk != nil; blk = blk.Idom() {
+			if len(blk.Preds) < 2 {
+				continue
+			}
+			set := map[int64]bool{}
+			all := true
+			for _, pb := range blk.Preds {
+				iff, ok := pb.Instrs[len(pb.Instrs)-1].(*ssa.If)
+				if !ok {
+					all = false
+					break
+				}
+				cond, val := unNot(iff.Cond, true)
+				cmp, ok := cond.(*ssa.BinOp)
+				if !ok || !isLenOfX(cmp.X) {
+					all = false
+					break
+				}
+				k, isK := constInt(cmp.Y)
+				onTrue := pb.Succs[0] == blk
+				if !isK || !(cmp.Op == token.EQL && onTrue == val) {
+					all = false
+					break
+				}
+				set[k] = true
+			}
+			if all && len(set) > 0 {
+				allowed = set
+				break
+			}
+		}
+	}
+	if allowed != nil {
+		best := int64(-1)
+		for k := range allowed {
+			if excluded[k] || k < lo {
+				continue
+			}
+			if best < 0 || k < best {
+				best = k
+			}
+		}
+		if best < 0 {
+			return 1 << 30 // unreachable
+		}
+		return best
+	}
+	for excluded[lo] {
+		lo++
+	}
+	return lo
 }
